@@ -264,6 +264,14 @@ def _explore(out, tier, seed, facts, replay):
             # rmsf = exp(sqrt(agg(log(f/o)^2))): when the aggregate is 0 up to rounding (e.g. -agg change of equal squares)
             # sqrt sees +0 or -1e-17 depending on the last bit of log(); 1.0 against NaN is then a rounding matter
             bad = [b for b in bad if not (b[0] == "Rmsf" and ((math.isnan(b[1]) and abs(b[2] - 1) < 1e-6) or (math.isnan(b[2]) and abs(b[1] - 1) < 1e-6)))]
+            if len(e) == len(CLASSES):
+                # zero variance (constant observations or forecasts): the guarded quantity is 0 mathematically and rounding noise in
+                # floating point, whose last bit depends on the order of summation (numpy sums pairwise, the model left to right);
+                # model and implementation may then take different sides of the `== 0` guard (see the known finding zero-variance-rounding)
+                vo = {x for x in dsc["obs"] if x != "nan"}
+                vf = {x for x in dsc["fcst"] if x != "nan"}
+                if len(vo) <= 1 or len(vf) <= 1:
+                    bad = [b for b in bad if b[0] not in ("Nsec", "Nnsec", "Kge", "Corr", "Alphaindex") or not (math.isnan(b[1]) or math.isnan(b[2]) or abs(b[1]) > 1e12 or abs(b[2]) > 1e12 or abs(b[1]) < 1e-12 or abs(b[2]) < 1e-12)]
             if bad or len(g) != len(e):
                 disagreements.append({"case": dsc, "differs": bad[:4]})
     except RuntimeError as ex:
